@@ -163,10 +163,11 @@ func init() {
 			"the mutex and mutable after construction; shared cbor encoders, the client's pending table, signal table and running flag are required to be guarded) and every " +
 			"access outside construction holds the mutex on all paths (must-lockset dataflow, helpers inherit the locks of all call sites, a goroutine started inside a " +
 			"critical section and joined before the unlock counts as inside). This is the structural part of 'never corrupted by interleaved writes / delivered to a different " +
-			"run'. R-EXACTLYONE / R-DOM - each step-runner path emits exactly one terminal message and the step is called once with the unserialized input; R-RUNID - every run-ID position (RunID fields, keys of the run tables, run-ID parameters; tables and parameters inferred to a fixpoint) is fed by a run ID passed through unchanged. NOT decided: interleavings as such, transport chunking, CBOR fidelity, equality of results with in-process calls.",
+			"run'. R-EXACTLYONE / R-DOM - each step-runner path emits exactly one terminal message and the step is called once with the unserialized input; R-RUNID - every run-ID position (RunID fields, keys of the run tables, run-ID parameters; tables and parameters inferred to a fixpoint) is fed by a run ID passed through unchanged. R-FRESHDEC - the target of every Decode inside a message loop is allocated per iteration (a message that omits a field cannot inherit the previous message's). NOT decided: interleavings as such, transport chunking, CBOR fidelity, equality of results with in-process calls.",
 		Assumptions: []string{"callers that obtain the raw codec through the exported Encoder()/Decoder() accessors are outside the premise",
 			"the 60 s send time-out arm of sendRuntimeMessage (transport stall) is outside the premise"},
 		Rules: []func(*Ctx){
+			func(c *Ctx) { c.ruleFreshDecode("R-FRESHDEC", c.scopePkg("atp")); c.R.Floor("R-FRESHDEC", 2) },
 			func(c *Ctx) { c.ruleLockset("R-LOCKSET", c.lockTargets("atp", "schema")); c.R.Floor("R-LOCKSET", 15) },
 			func(c *Ctx) { c.ruleExactlyOne("R-EXACTLYONE") },
 			func(c *Ctx) { c.ruleStepDom("R-DOM") },
@@ -197,9 +198,10 @@ func init() {
 			"stops when the channel is closed, no report is sent non-blockingly, and the client's signal channels are closed/sent under one discipline; R-RECOVER - every " +
 			"goroutine that runs step code does so below a recover scope; R-EXACTLYONE - every path of the step runner, including the panic path through the recover handler, " +
 			"emits exactly one terminal message; R-WG for the server goroutines; R-MAPNIL - unknown step / signal IDs cannot be dereferenced (server side of C11). " +
-			"R-DECODEEXIT - the failure branch of a Decode inside a message loop cannot lead back to it; R-RECOVER covers CallSignal as well as CallStep. NOT decided: byte-level behaviour of the CBOR decoder on truncated input; behaviour of user step code.",
+			"R-DECODEEXIT - the failure branch of a Decode inside a message loop cannot lead back to it; R-RECOVER covers CallSignal as well as CallStep. R-FRESHDEC - the target of every Decode inside a message loop is allocated per iteration (a message that omits a field cannot inherit the previous message's). NOT decided: byte-level behaviour of the CBOR decoder on truncated input; behaviour of user step code.",
 		Assumptions: []string{"channel semantics of Go (send on closed channel panics; send without receiver blocks)"},
 		Rules: []func(*Ctx){
+			func(c *Ctx) { c.ruleFreshDecode("R-FRESHDEC", c.scopePkg("atp")); c.R.Floor("R-FRESHDEC", 2) },
 			func(c *Ctx) { c.ruleDecodeExit("R-DECODEEXIT", c.scopePkg("atp")); c.R.Floor("R-DECODEEXIT", 2) },
 			func(c *Ctx) { c.ruleChan("R-CHAN") },
 			func(c *Ctx) { c.ruleRecover("R-RECOVER") },
